@@ -452,6 +452,7 @@ type e1func struct {
 	emitted   map[string]bool
 	eligCache map[any]map[*ast.CallExpr]bool
 	loopAll   map[*ast.RangeStmt][]*Term // all(xs, F) facts established when the range loop is exhausted
+	brDepth   int
 }
 
 func (e *e1) analyse(fi *FuncInfo) *e1func {
@@ -1990,6 +1991,19 @@ func one(s *fstate) []*fstate {
 
 func (f *e1func) branchExpr(st *fstate, cond ast.Expr, val bool) []*fstate {
 	cond = unparen(cond)
+	// a boolean temporary (assigned once, pure definition): the condition is its definition
+	if id, ok := cond.(*ast.Ident); ok {
+		if o := f.info.Uses[id]; o != nil {
+			if def, ok := f.tb.inl[o]; ok && f.brDepth < 4 {
+				if _, isSub := f.tb.sub[o]; !isSub {
+					f.brDepth++
+					out := f.branchExpr(st, def, val)
+					f.brDepth--
+					return out
+				}
+			}
+		}
+	}
 	switch c := cond.(type) {
 	case *ast.UnaryExpr:
 		if c.Op == token.NOT {
